@@ -110,21 +110,26 @@ def letters(shape):
 
     # ---- nested CooMatrix already holding duplicates
     def nested(m, n, k):
+        # built lazily (inside the explored execution), with index-array writes only, so that the
+        # alphabet itself never depends on the code under test
         c = CooMatrix((m, n))
         c[0, 0] = 1.0
-        c[slice(None), slice(None)] = _vals(m, n, k)
+        c[list(range(m)), list(range(n))] = _vals(m, n, k)
         c[0, 0] = -0.5
         c[m - 1, list(range(n))] = _vals(1, n, k + 1)[0]
+        return c
+
+    def nested_dense(m, n, k):
         dense = np.zeros((m, n))
         dense[0, 0] += 0.5
         dense += _vals(m, n, k)
         dense[m - 1] += _vals(1, n, k + 1)[0]
-        return c, dense
+        return dense
 
-    add("nested_dup@full", full, lambda: nested(M, N, 17)[0], allr, allc, nested(M, N, 17)[1])
-    add("nested_dup@rev_lists", (allr[::-1], np.array(allc[::-1])), lambda: nested(M, N, 19)[0], allr[::-1], allc[::-1], nested(M, N, 19)[1])
+    add("nested_dup@full", full, lambda: nested(M, N, 17), allr, allc, nested_dense(M, N, 17))
+    add("nested_dup@rev_lists", (allr[::-1], np.array(allc[::-1])), lambda: nested(M, N, 19), allr[::-1], allc[::-1], nested_dense(M, N, 19))
     add("nested_empty@full", full, lambda: CooMatrix((M, N)), allr, allc, np.zeros((M, N)))
-    add("nested_1x1@int,int", (r_last, 0), lambda: nested(1, 1, 21)[0], [r_last], [0], nested(1, 1, 21)[1])
+    add("nested_1x1@int,int", (r_last, 0), lambda: nested(1, 1, 21), [r_last], [0], nested_dense(1, 1, 21))
     # ---- inconsistent block shapes: must be rejected and change nothing
     reject("bad:dense_too_wide", full, lambda: np.ones((M, N + 1)))
     reject("bad:dense_transposed_or_tall", full, lambda: np.ones((M + 1, N)))
@@ -164,7 +169,11 @@ def cases(tier, seed):
 
 def _apply(coo, ref, make, fails, hist_names):
     """one transition on the real container + reference model; returns True if the matrix changed"""
-    key, value, expect = make()
+    try:
+        key, value, expect = make()
+    except Exception as e:  # building a nested container uses the container itself
+        fails.append({"site": "building a nested container from consistent writes raises", "msg": f"{type(e).__name__}: {e}; history {hist_names}", "data": {"history": list(hist_names)}})
+        return False
     before = None
     if expect[0] == "reject":
         before = coo.toarray().copy() if coo.shape[0] * coo.shape[1] >= 0 else None
